@@ -135,10 +135,17 @@ End Spec.
 Definition str_set_eq (a b : list string) : bool :=
   forallb (fun x => mem_str x b) a && forallb (fun x => mem_str x a) b.
 
+Definition merged_of (s : sdl) : option gschema :=
+  match initial s with inl g0 => Some (fold_left apply_ext (s_exts s) g0) | inr _ => None end.
+
 Definition build_agree (s : sdl) (obs_built : bool) (obs_kinds : list string) : bool :=
   match impl_build s with
   | Built _ => obs_built
-  | Rejected ks => negb obs_built && str_set_eq ks obs_kinds
+  | Rejected ks =>
+      negb obs_built &&
+      (if match merged_of s with Some g => bake_aborts g | None => false end
+       then forallb (fun k => mem_str k obs_kinds) ks          (* aborted bake: the engine may report more *)
+       else str_set_eq ks obs_kinds)
   | Raised => negb obs_built
   end.
 
